@@ -235,6 +235,55 @@ fn readhalf_more_exec(len: usize, mode: usize, ctx: &WorkerCtx) -> ExecResult {
     })
 }
 
+/// A frame that stalls in the middle of its body for longer than the I/O timeout, through `receive_message` (0) and
+/// `receive_raw` (1): the call either gives up with an error - after which this harness stops reading - or the frames come
+/// out exactly as sent. Bytes of the stalled frame must never be taken for the start of another frame.
+fn stall_receive_exec(case: &(usize, usize), ctx: &WorkerCtx) -> ExecResult {
+    let (entry, cut_choice) = *case;
+    run_rt(async move {
+        let mut res = ExecResult::default();
+        let mut cw = match conn_world(ctx, flags_default(), flags_default()).await { Ok(x) => x, Err(e) => { res.violations.push(("could not establish the connection under a conforming peer".into(), json!({"error": e}))); return res; } };
+        cw.w.gates.set_active(&[]);
+        let to = vcore::refval::RefVal::Pid { node: "me@127.0.0.1".into(), id: 1, serial: 0, creation: 1 };
+        // the payload of the first message contains, byte for byte, a complete small frame (so that a reader that loses its
+        // place inside the body finds something that looks like a message)
+        let inner = crate::procs::send_to(&to, vcore::refval::RefVal::atom("smuggled"));
+        let mut blob = vec![0u8; 40]; blob.extend_from_slice(&inner); blob.extend_from_slice(&[0u8; 8]);
+        let msg = |k: i64| crate::procs::send_to(&to, vcore::refval::RefVal::Tuple(vec![vcore::refval::RefVal::atom("m"), vcore::refval::RefVal::int(k), vcore::refval::RefVal::binary(&blob)]));
+        let got: Arc<Mutex<Vec<Result<String, String>>>> = Arc::new(Mutex::new(vec![]));
+        let g2 = got.clone();
+        let mut conn = cw.conn;
+        tokio::spawn(async move {
+            loop {
+                let r: Result<String, String> = if entry == 0 { conn.receive_message().await.map(|(_, p)| p.map(|t| format!("{}", crate::denote::denote(&t))).unwrap_or_default()).map_err(|e| e.to_string()) }
+                    else { conn.receive_raw().await.map(|b| vcore::report::hex(&b)).map_err(|e| e.to_string()) };
+                let stop = r.is_err();
+                g2.lock().unwrap().push(r);
+                if stop || g2.lock().unwrap().len() > 8 { break; }
+            }
+        });
+        let probe = { let g = got.clone(); move || g.lock().unwrap().len() as u64 };
+        let f = msg(1);
+        // cut right before the embedded frame, in its middle, or early in the body
+        let at = f.windows(inner.len()).position(|w| w == &inner[..]).unwrap_or(20);
+        let cut = [at, at + inner.len() / 2, 9][cut_choice % 3];
+        cw.peer.send(&f[..cut]);
+        cw.w.settle(&mut cw.peer, &probe).await;
+        tokio::time::advance(std::time::Duration::from_secs(25)).await; // the default I/O timeout is 10 s
+        cw.w.settle(&mut cw.peer, &probe).await;
+        cw.peer.send(&f[cut..]); cw.peer.send(&msg(2));
+        cw.w.settle(&mut cw.peer, &probe).await;
+        let all = got.lock().unwrap().clone();
+        let want = |k: i64| if entry == 0 { format!("{}", vcore::refval::RefVal::Tuple(vec![vcore::refval::RefVal::atom("m"), vcore::refval::RefVal::int(k), vcore::refval::RefVal::binary(&blob)])) } else { vcore::report::hex(&msg(k)[4..]) };
+        let ok = (all.len() == 1 && all[0].is_err()) || all == vec![Ok(want(1)), Ok(want(2))];
+        let entry_name = ["receive_message", "receive_raw"][entry % 2];
+        if !ok { res.violations.push(("a frame that stalls inside its body ends in something other than one error or the frames as sent".into(), json!({"entry": entry_name, "stalled_after_bytes": cut, "results": all.iter().map(|r| match r { Ok(s) => format!("Ok({})", s.chars().take(60).collect::<String>()), Err(e) => format!("Err({})", e) }).collect::<Vec<_>>()}))); }
+        res.steps = 3;
+        res.outcome = format!("stall receive {} {}", entry, cut_choice);
+        res
+    })
+}
+
 /// The writing side over a socket: `send_raw` for a sequence of messages; the peer's bytes must be exactly the one-shot framing.
 fn send_raw_exec(lens: &Vec<usize>, ctx: &WorkerCtx) -> ExecResult {
     let lens = lens.clone();
@@ -282,7 +331,15 @@ pub fn run(rep: &Report) -> Value {
     let big: Vec<(usize, usize)> = vec![(65_535, 0), (65_536, 0), (65_537, 0), (200_000, 0), (1 << 20, 0), (4, 1), (50, 1), (70_000, 1), (3, 2), (8, 2), (300, 2), (70_000, 2), (0, 3), (0, 4), (2, 5), (3, 5), (9, 5),
         ((64 << 20) + 1, 6), (100 << 20, 6), (200 << 20, 6), (256 << 20, 6), ((256 << 20) + 1, 6), (u32::MAX as usize, 6)];
     let st_b: Stats = for_all(rep, "large frames after the handshake; end of stream inside a frame on the read half", &big, |c, ctx| recv_big_exec(c, ctx));
+    // the writing side when a write is given up half way (peer stops reading, clock passes the I/O timeout) and the
+    // connection is connected again: the new session's peer reads exactly the frames written in it (scenario of C07)
+    let sr: Vec<(usize, usize)> = vec![(0, 0), (0, 1), (0, 2), (1, 0), (1, 1), (1, 2)];
+    let st_sr: Stats = for_all(rep, "a frame stalling inside its body past the I/O timeout", &sr, |c, ctx| stall_receive_exec(c, ctx));
+    let stalls = [(24usize, false, true), (24, true, true), (24, true, false)];
+    let st_stall: Stats = for_all(rep, "write given up half way, reconnect, write again", &stalls, |c, ctx| crate::c07::stalled_conn_exec(c, ctx));
     json!({
+        "stalled_writer_executions": st_stall.executions,
+        "stalled_reader_executions": st_sr.executions,
         "large_frame_executions": st_b.executions,
         "states": st.executions + st_h.executions + st_w.executions,
         "transitions": st.transitions + st_h.transitions + st_w.transitions,
